@@ -5,14 +5,14 @@
      if opt.FollowPaths != nil {
          targets := FollowLinks(fs, opt.FollowPaths)                    Model/FollowLinks.v (C18)
          if targets != nil {                                            nil <=> "." was resolved
-             includePatterns = dedupePaths(append(includePatterns, targets...))
-         }
+             includePatterns = append(includePatterns, targets...)         (no dedupePaths: fix of
+         }                                                                  dedupe-order-sensitive-includes)
      }
      if len(includePatterns) > 0 { includeMatcher = New(includePatterns) }
 
-   The list is ORDER-SENSITIVE (a '!' exception acts on what precedes it): no sorting; dedupePaths
-   keeps the order and drops an element that is textually below an element kept before it
-   (nil when an element is "."). *)
+   The list is ORDER-SENSITIVE (a '!' exception acts on what precedes it): no sorting, and no
+   path-wise deduplication of the combined list (FollowLinks returns its targets sorted and
+   deduplicated among themselves). *)
 From Coq Require Import List NArith Bool.
 From FS Require Import Sx Model.Path Model.Stat Model.Tree Model.Pattern Model.FilterWalk.
 From FS Require Model.FollowLinks.
@@ -30,7 +30,7 @@ Definition assemble_includes (view : list node) (inc follow : list bytes) : Foll
     | FollowLinks.OutOfFuel => FollowLinks.OutOfFuel
     | FollowLinks.Ok None => FollowLinks.Ok inc
     | FollowLinks.Ok (Some ts) =>
-      FollowLinks.Ok (match FollowLinks.dedupe_paths (inc ++ ts) with Some l => l | None => [] end)
+      FollowLinks.Ok (inc ++ ts)
     end
   end.
 
